@@ -347,7 +347,7 @@ func checkC01(c *Ctx) {
 			// stored back on success
 			stored := false
 			var seenOrigins []string
-			eachInstr(rf, func(in ssa.Instruction) {
+			m.eachUnitInstr(rf, func(in ssa.Instruction) {
 				if call, ok := in.(*ssa.Call); ok {
 					if fld, v, ok := m.atomicStore(call); ok && fld == m.Revision {
 						o := m.Origins(v)
